@@ -187,7 +187,9 @@ func vC12Shape(doc string) []string {
 	if e := m.Error; e != nil {
 		t = append(t, "E", vEnc(e.Code), vC12B(len(e.Details) == 0))
 		var d RoomErrorDetails
-		if len(e.Details) > 0 && json.Unmarshal(e.Details, &d) == nil && d.Room != nil {
+		derr := json.Unmarshal(e.Details, &d)
+		t = append(t, vC12B(len(e.Details) > 0 && derr == nil))
+		if len(e.Details) > 0 && derr == nil && d.Room != nil {
 			t = append(t, "+", vEnc(d.Room.RoomId))
 		} else {
 			t = append(t, "-")
@@ -622,6 +624,8 @@ func vC12Hostile(r *vRand) string {
 	return r.pick(vC12Garbage)
 }
 
+var vC12T *testing.T
+
 func vC12Gen(e *vEnv, r *vRand) []vCase {
 	welcome := `{"type":"welcome","welcome":{"version":"1.0","features":["audio","federation"]}}`
 	hello := func(n int) string {
@@ -673,6 +677,9 @@ func vC12Gen(e *vEnv, r *vRand) []vCase {
 		cases = append(cases, vCase{Ops: append(append([]string{}, joi...), "drop close",
 			vC12PeerOp("peerwf", `{"type":"welcome","welcome":{"version":"1.0"}}`), "local msg", "local msg", "probe"), Tags: []string{"regression"}})
 	}
+	// deterministic batteries: nested payloads of every raw member the handlers decode; faults at every point of the handshake
+	cases = append(cases, vC12NestedBattery(vC12T, e, welcome, hello, room)...)
+	cases = append(cases, vC12FaultBattery(e, r.fork(), welcome, hello, room)...)
 	for i := 0; i < n; i++ {
 		rr := r.fork()
 		rid, hide := rr.chance(1, 2), rr.chance(1, 3)
@@ -693,7 +700,14 @@ func vC12Gen(e *vEnv, r *vRand) []vCase {
 			ops = append(ops, "drop "+rr.pick([]string{"tcp", "close", "rst"}), vC12PeerOp("peer", welcome))
 		case stage < 16: // resumed
 			ops = append(ops, joined...)
-			ops = append(ops, "drop tcp", "local msg", vC12PeerOp("peer", welcome), vC12PeerOp("peer", hello(2)))
+			if rr.chance(1, 2) {
+				ops = append(ops, "drop tcp", "local msg", vC12PeerOp("peer", welcome), vC12PeerOp("peer", hello(2)))
+			} else {
+				// the remote server was away for a while: messages are queued and sent with the resume
+				// (sometimes with the connection breaking right then)
+				ops = append(ops, "drop hold", "local msg", "local msg", "up", vC12PeerOp("peer", welcome),
+					vC12PeerOp(rr.pick([]string{"peer", "peer", "peerwf"}), hello(2)))
+			}
 		case stage < 17: // resume refused, new session
 			ops = append(ops, joined...)
 			ops = append(ops, "drop tcp", vC12PeerOp("peer", welcome),
@@ -723,9 +737,16 @@ func vC12Gen(e *vEnv, r *vRand) []vCase {
 					`{"id":"@HID1@","type":"error","error":{"code":"no_such_session"}}`, `{"id":"@HID1@","type":"error","error":{"code":"other"}}`,
 					`{"type":"welcome","welcome":{"version":"1.0"}}`, `{"type":"room","room":{"roomid":""}}`, `{"type":"bye"}`})))
 				slow++
-			case x < 88 && slow < 2:
+			case x < 87 && slow < 2:
 				ops = append(ops, "drop "+rr.pick([]string{"tcp", "close", "rst"}))
 				slow++
+			case x < 88 && slow < 1:
+				ops = append(ops, "drop hold")
+				for q := rr.intn(3); q > 0; q-- {
+					ops = append(ops, rr.pick([]string{"local msg", "local msg", "local leave", "probe"}))
+				}
+				ops = append(ops, "up")
+				slow += 2
 			case x < 90:
 				ops = append(ops, "bin "+vEnc(vC12Hostile(rr)))
 			case x < 91 && slow < 2:
@@ -750,5 +771,6 @@ func vC12Gen(e *vEnv, r *vRand) []vCase {
 }
 
 func TestVerifC12(t *testing.T) {
+	vC12T = t
 	vC12Run(t, vC12Gen, vC12Exec)
 }
